@@ -93,6 +93,16 @@ def main():
         meta["checks_on_patched_tree"] = fired
         # revert
         sh("git checkout -- .", cwd=wt)
+        # findings the unchanged tree produces as well are never credited to the seed
+        for p_ in props:
+            rc_b, out_b = sh("%s/check %s --src %s/src" % (VERIF, p_, wt))
+            base = {l.split()[1] for l in out_b.splitlines() if l.startswith("FINDING")}
+            if base:
+                kept = [l for l in fired[p_]["findings"] if not (l.startswith("FINDING") and l.split()[1] in base)]
+                fired[p_]["baseline_findings_subtracted"] = sorted(base)[:5]
+                fired[p_]["findings"] = kept
+                if fired[p_]["exit"] == 1 and not kept:
+                    fired[p_]["exit"] = 0
         sh("make -C src -j4 2>&1 | tail -2", cwd=wt)
         rc, out = build_demo(wt, demo, exe, asan, extra)
         meta["demo_build_pristine"] = rc
